@@ -119,6 +119,13 @@ impl EventSource for Timer {
             if registration.token != token {
                 return Ok(PostAction::Continue);
             }
+            // An expiry event consumes the entry of its arming in the wheel. If ours is still
+            // pending, this event belongs to an earlier arming that was since replaced
+            // (the timer was updated or re-enabled after it expired in this very dispatch):
+            // ignore it, the current arming will fire when its own deadline is reached.
+            if registration.wheel.borrow().is_pending(registration.counter) {
+                return Ok(PostAction::Continue);
+            }
             let new_deadline = match callback(*deadline, &mut ()) {
                 TimeoutAction::Drop => return Ok(PostAction::Remove),
                 TimeoutAction::ToInstant(instant) => instant,
@@ -240,6 +247,10 @@ impl TimerWheel {
         };
 
         self.heap.retain(|data| data.counter != counter);
+    }
+
+    pub(crate) fn is_pending(&self, counter: u32) -> bool {
+        self.heap.iter().any(|data| data.counter == counter)
     }
 
     pub(crate) fn next_expired(&mut self, now: Instant) -> Option<(u32, Token)> {
